@@ -920,9 +920,11 @@ class Ctx:
         for i in range(len(cons)):
             groups.setdefault(find(i), []).append(i)
         values = {}
+        self._full_model_status = "sat"
         for g in groups.values():
             r, m = self._solve([cons[i] for i in g], count_unknown=False)
             if r != z3.sat:
+                self._full_model_status = "unsat" if r == z3.unsat else "unknown"
                 return None
             gv = set()
             for i in g:
@@ -1065,6 +1067,12 @@ class Ctx:
             raise Inconclusive(f"unknown on obligation {label}")
         # sat: counterexample
         model = self.full_model(neg)
+        if model is None and self._full_model_status == "unsat":
+            # the sliced query leaves out constraints that define a variable (a rounding, a square root, a quotient); when
+            # the path condition constrains that variable they matter after all: the complete path condition refutes the
+            # candidate counterexample, i.e. the obligation holds on this path
+            self.stats.proved += 1
+            return True
         if model is None:
             raise Inconclusive(f"could not build a full model for the counterexample of {label}")
         v = Violation(label, model, _dec_json(self.decisions), detail)
